@@ -632,3 +632,46 @@ Section LinearisationFacts.
           rewrite <- (H3 t) by congruence. exact IH2.
   Qed.
 End LinearisationFacts.
+
+(* ------------------------------------------------------------------ the hypotheses are satisfiable *)
+
+(* the hypotheses of the theorem are satisfiable by a schedule with conflicting accesses: thread 0
+   rewrites the nodes inside its critical section and later executes; thread 1 sees, in a later
+   critical section, that analysis completed and executes outside the mutex *)
+Definition hx_first : op := [Acq NsMu; Wr LNodes; Rel NsMu; Rd LNodes].
+Definition hx_second : op := [Acq NsMu; Rd LEscapeErr; Rel NsMu; Rd LNodes].
+Definition hx_threads : list thread := [[hx_first]; [hx_second]].
+Definition hx_sched : list nat := [0; 0; 0; 1; 1; 1; 1; 0].
+Definition hx_trace : list (nat * action) :=
+  [(0, Acq NsMu); (0, Wr LNodes); (0, Rel NsMu); (1, Acq NsMu); (1, Rd LEscapeErr); (1, Rel NsMu);
+   (1, Rd LNodes); (0, Rd LNodes)].
+Definition hx_entries : list entry :=
+  [(LNodes, true, ([NsMu], false)); (LNodes, false, ([], true)); (LEscapeErr, false, ([NsMu], false))].
+
+Ltac idx_cases H i :=
+  repeat (destruct i as [|i]; [simpl in H; try discriminate H | try (simpl in H; discriminate H)]).
+
+Example hx_satisfiable :
+  valid_schedule hx_threads hx_sched /\ trace_of hx_threads hx_sched = Some hx_trace /\
+  discipline c09_policy hx_threads /\ publication_order c09_policy hx_trace /\
+  (exists i j, nth_error hx_trace i = Some (0, Wr LNodes) /\ nth_error hx_trace j = Some (1, Rd LNodes)) /\
+  ~ race hx_trace.
+Proof.
+  assert (Htr : trace_of hx_threads hx_sched = Some hx_trace) by (vm_compute; reflexivity).
+  assert (Hok : mutex_ok hx_trace).
+  { intros i e H. idx_cases H i; inversion H; subst; vm_compute; first [reflexivity | exact I]. }
+  assert (Hd : discipline c09_policy hx_threads).
+  { intros th Hin. apply discipline_concat. intros o Ho.
+    apply (entry_ok_sound hx_entries).
+    - intros e He. simpl in He. destruct He as [<- | [<- | [<- | []]]]; vm_compute; reflexivity.
+    - apply conforms_b_conforms.
+      destruct Hin as [<- | [<- | []]]; destruct Ho as [<- | []]; vm_compute; reflexivity. }
+  assert (Hp : publication_order c09_policy hx_trace).
+  { intros i j a t t' l m P Hi Hj Hne Hout Haj Ha Hlast.
+    pose proof (c09_published_is_ns _ _ P) as ->.
+    idx_cases Hi i. inversion Hi; subst.
+    idx_cases Ha a; inversion Ha; subst; try lia; try congruence. }
+  split; [exists hx_trace; split; assumption|]. split; [exact Htr|]. split; [exact Hd|]. split; [exact Hp|].
+  split; [exists 1, 6; split; reflexivity|].
+  eapply drf_generic; eassumption.
+Qed.
